@@ -126,6 +126,30 @@ CHECKS["C20"] = ("exploration",
             "'fits a message' is read as the 2 MiB batch limit; sha3/keccak/blake2b are recomputed with in-harness implementations checked against known answers.",
             "DESIGN.md §3 C20")
 
+CHECKS["C11"] = ("exploration",
+            "per-peer user-event automaton + probe-phase bounded progress + panic monitor over real nodes (storm/quiesce/probe/fresh-peer probe, chaos executor, resettable proxies)",
+            "2-3 real nodes with scripted users (open/close/validation answers/sends/bursts/stop polling/connection resets) under random configuration; offline "
+            "checker over the stamped logs: opened only when closed, closed only when open, notifications only while open, no open-failure while open, inbound streams "
+            "opened only after an Accept (or auto-accept with an own request outstanding), outbound opens never exceed requests; from a known idle connected state one "
+            "open request must yield exactly one opened/open-failure within 48 s; a reset connection must close the stream on both sides; a fresh peer must still be served; "
+            "no litep2p task may panic (debug assertions on in the dbgchk profile).",
+            "Storm-phase liveness is not judged; probe windows are guarded by a timer-lag canary.",
+            "DESIGN.md §3 C11")
+CHECKS["C12"] = ("exploration",
+            "unique-id prefix/order checker per (sender, receiver, mode, open period) over the same real-node runs as C11",
+            "Every notification carries (sender, mode, epoch, seq, prf fill); offline: delivered notifications are intact, within the maximum size, strictly increasing in "
+            "(epoch, seq) per mode (at most once, in order), and within an open period they are a prefix of the notifications whose send returned Ok; the synchronous send "
+            "returns immediately (ChannelClogged observed under heavy bursts and stalled readers); in the probe phase everything accepted while both streams stay open is delivered.",
+            "Cross-mode order is not constrained; cancelled (timed-out) async sends are not counted as accepted.",
+            "DESIGN.md §3 C12")
+CHECKS["C19"] = ("exploration",
+            "panic / hang / allocation monitors + encoder round-trip oracle over millions of mutated encodings for every decoder reachable from the wire (Miri on a subset in thorough)",
+            "Targets: multistream messages and listener/dialer futures, WebRTC negotiation helpers, substream frame reader under 9 codec configurations, Noise handshake "
+            "payload (through a rogue peer with a valid session), public keys, peer ids, Kademlia messages and embedded multiaddresses, Bitswap messages/prefixes and the "
+            "real inbound handler. Inputs: library encodings, truncation at every offset, bit flips, varint replacement, splicing, repeated-field bombs, huge declared lengths, noise.",
+            "Allocation bound is max(8*max(n,L), 128*n)+64 KiB for protobuf targets (prost amplification measured at ~55x); identify/ping are covered end to end elsewhere.",
+            "DESIGN.md §3 C19")
+
 NOT_YET = {}
 
 
